@@ -128,6 +128,106 @@ func basicVariants(p *geval.Path, unnamedToo bool) []map[*geval.SymType]string {
 	return out
 }
 
+func hasAssignRoles(v map[*geval.SymType]string) bool {
+	for _, r := range v {
+		if strings.HasPrefix(r, "assign:") {
+			return true
+		}
+	}
+	return false
+}
+
+// assignVariants: for the pairs of types the path only knows to be assignable
+// (types.AssignableTo answered yes) and nothing else about, two readings in
+// which they are different types: the pair graph is 2-coloured into "a named
+// type" / "its unnamed underlying type" (both colourings). Types the path knows
+// more about (a kind, named-ness) keep the reading "the same type".
+func assignVariants(p *geval.Path) []map[*geval.SymType]string {
+	byDesc := map[string]*geval.SymType{}
+	for x := range p.Facts {
+		byDesc[x.Desc] = x
+	}
+	type edge struct{ a, b *geval.SymType }
+	var edges []edge
+	var keys []string
+	for k, v := range p.Preds {
+		if v == geval.Yes && strings.HasPrefix(k, "AssignableTo(") {
+			keys = append(keys, k)
+		}
+	}
+	sort.Strings(keys)
+	plain := func(t *geval.SymType) bool {
+		f := p.Facts[t]
+		if f == nil {
+			return true
+		}
+		return f.Kind == geval.KUnknown && f.Named == geval.Unknown && len(f.NotKinds) == 0 && f.TypeText == "" && f.Methods == nil && p.Preds["derive.IsError("+t.Desc+")"] != geval.Yes
+	}
+	for _, k := range keys {
+		inner := k[len("AssignableTo(") : len(k)-1]
+		depth, cut := 0, -1
+		for i, c := range inner {
+			switch c {
+			case '(':
+				depth++
+			case ')':
+				depth--
+			case ',':
+				if depth == 0 && cut < 0 {
+					cut = i
+				}
+			}
+		}
+		if cut < 0 {
+			continue
+		}
+		a, b := byDesc[inner[:cut]], byDesc[inner[cut+1:]]
+		if a == nil || b == nil || a == b || !plain(a) || !plain(b) {
+			continue
+		}
+		edges = append(edges, edge{a, b})
+	}
+	if len(edges) == 0 {
+		return nil
+	}
+	// types related by Identical to anything are left alone
+	for k, v := range p.Preds {
+		if v == geval.Yes && strings.HasPrefix(k, "Identical(") {
+			for _, e := range edges {
+				if strings.Contains(k, "("+e.a.Desc+",") || strings.Contains(k, ","+e.a.Desc+")") || strings.Contains(k, "("+e.b.Desc+",") || strings.Contains(k, ","+e.b.Desc+")") {
+					return nil
+				}
+			}
+		}
+	}
+	colour := map[*geval.SymType]int{}
+	for changed := true; changed; {
+		changed = false
+		for _, e := range edges {
+			ca, cb := colour[e.a], colour[e.b]
+			switch {
+			case ca == 0 && cb == 0:
+				colour[e.a], colour[e.b] = 1, 2
+				changed = true
+			case ca == 0:
+				colour[e.a] = 3 - cb
+				changed = true
+			case cb == 0:
+				colour[e.b] = 3 - ca
+				changed = true
+			case ca == cb:
+				return nil // an odd cycle: no reading with pairwise distinct neighbours
+			}
+		}
+	}
+	names := []string{"", "assign:named", "assign:unnamed"}
+	v1, v2 := map[*geval.SymType]string{}, map[*geval.SymType]string{}
+	for t, c := range colour {
+		v1[t], v2[t] = names[c], names[3-c]
+	}
+	return []map[*geval.SymType]string{v1, v2}
+}
+
 // RunEntry explores a generator function and produces its G and O obligations.
 func RunEntry(l *driver.Loaded, b *Builder, entryKey string, opt RunOpts) (*EntryReport, error) {
 	con := l.Contracts.Funcs[entryKey]
@@ -216,6 +316,26 @@ func RunEntry(l *driver.Loaded, b *Builder, entryKey string, opt RunOpts) (*Entr
 		// does not (e.g. whether an element type is comparable)
 		forks := forkVariants(b, con, p, genArgs)
 		bvs := basicVariants(p, len(con.Attrs["basic-unnamed-variants"]) > 0)
+		// assignability is wider than identity: besides the reading "the same type",
+		// the text is checked under readings in which assignable types are distinct
+		// (a named type and its unnamed underlying type)
+		if avs := assignVariants(p); len(avs) > 0 {
+			var all []map[*geval.SymType]string
+			for _, bv := range bvs {
+				all = append(all, bv)
+				for _, av := range avs {
+					m := map[*geval.SymType]string{}
+					for k, v := range bv {
+						m[k] = v
+					}
+					for k, v := range av {
+						m[k] = v
+					}
+					all = append(all, m)
+				}
+			}
+			bvs = all
+		}
 		nvar := 0
 		for _, fk := range forks {
 			for _, variant := range bvs {
@@ -277,6 +397,10 @@ func RunEntry(l *driver.Loaded, b *Builder, entryKey string, opt RunOpts) (*Entr
 				rep.Results = append(rep.Results, ores(entryKey, "header", "", vid, len(hd) == 0, strings.Join(hd, "; ")+" on path "+desc, in.Src))
 				own := in.CheckOwnership()
 				rep.Results = append(rep.Results, ores(entryKey, "ownership", "inputs-unmodified", vid, len(own) == 0, strings.Join(own, "; ")+" on path "+desc, in.Src))
+				if hasAssignRoles(variant) {
+					rep.TextOnly++ // the distinct-types readings are checked at the text level only
+					continue
+				}
 				if opt.NoVC || len(con.Attrs["o-ensures"]) == 0 && len(con.Attrs["serves"]) == 0 && len(con.Attrs["o-rel-ensures"]) == 0 && len(con.Attrs["o-closure-ensures"]) == 0 && len(con.Attrs["o-closure-inv"]) == 0 {
 					continue
 				}
